@@ -29,7 +29,8 @@ BUDGET = {'quick': 240, 'thorough': 3000}
 
 
 def shards(tier):
-    return e1.std_shards(tier)
+    return e1.std_shards(tier, with_p=True, with_big=True) + \
+        ([('W', 'contranominal', 10)] if tier == 'quick' else [])
 
 
 def label_obs(lat):
